@@ -5281,8 +5281,8 @@ def rule_wire_forms(repo):
                           f"is not declared under that condition (undeclared implicit 1-bit net)", wiff.lineno)
                 else:
                     r.ok(c.mod, fq(c, f), cons)
-    # observation (no verdict): an output port is glued flat <- packed; the behavioural emitter writes struct fields by their
-    # flat names whatever side of the assignment they are on
+    # an output port is glued flat <- packed; if the behavioural emitter writes struct fields by their flat names whatever side
+    # of the assignment they are on, a field written in an update block has two drivers (known finding D24)
     res_pd = lk.find(top, 'rtlir_tr_port_decl')
     vis_y = tov_visitor(repo, 'yosys')
     if res_pd is not None:
@@ -5291,11 +5291,15 @@ def rule_wire_forms(repo):
                                re.fullmatch(r"assign \{pid\} = \{wid\}\{idx\};", x.value.strip()) for x in ast.walk(pf))
         lhs_aware = any(isinstance(x, ast.Attribute) and x.attr == 'is_assign_LHS'
                         for cc_, ff_ in lk.all_defs(vis_y, 'visit_Attribute') for x in ast.walk(ff_))
+        cons = "rtlir_tr_port_decl: struct output glued flat <- packed, fields written by flat name"
         if flat_from_packed and not lhs_aware:
-            r.observations.append("struct-typed OUTPUT ports: the port glue drives the flat ports from the packed wire (assign o__a = o[7:4]) "
-                                  "while visit_Attribute names a struct field by its flat name also on the left-hand side, so a design "
-                                  "that writes the fields in an update block drives o__a twice and never drives o (port analogue of "
-                                  "D21; needs write analysis, see triage/c03_c12_yosys_struct_output_two_drivers.py)")
+            r.bad(pc.mod, fq(pc, pf), cons,
+                  "struct-typed OUTPUT ports: the port glue drives the flat ports from the packed wire (assign o__a = o[7:4]) while "
+                  "visit_Attribute names a struct field by its flat name also on the left-hand side, so a design that writes the "
+                  "fields in an update block drives o__a twice (always block and glue assign) and never drives the packed wire o",
+                  pf.lineno)
+        else:
+            r.ok(pc.mod, fq(pc, pf), cons)
     if n_rebuild < 2 or n_filter < 3:
         raise AnalysisError(f"R-C12-wire-forms: record pipeline not recognised ({n_rebuild} rebuild stages, {n_filter} filter stages)")
     r.evaluations = n + n_rebuild + n_filter
@@ -6026,8 +6030,19 @@ def rule_name_scope(repo, backend):
     me = f2.args.args[0].arg
     adds = [n for n in walk_no_nested(f2) if isinstance(n, ast.Call) and norm(n.func) == f"{me}.loop_var_env.add"]
     rems = [n for n in walk_no_nested(f2) if isinstance(n, ast.Call) and norm(n.func) in (f"{me}.loop_var_env.remove", f"{me}.loop_var_env.discard")]
-    body_loops = [n for n in walk_no_nested(f2) if isinstance(n, ast.For) and 'body' in norm(n.iter)]
-    okf = len(adds) == 1 and len(rems) == 1 and body_loops and adds[0].lineno < body_loops[0].lineno < rems[0].lineno
+    # the body visit: a loop, a comprehension / generator or a map() over node.body that visits the elements
+    def visits_body(n):
+        if isinstance(n, ast.For):
+            return 'body' in norm(n.iter) and any(isinstance(x, ast.Call) and norm(x.func).endswith('.visit') for x in ast.walk(n))
+        if isinstance(n, (ast.ListComp, ast.GeneratorExp, ast.SetComp)):
+            return any('body' in norm(g_.iter) for g_ in n.generators) and \
+                any(isinstance(x, ast.Call) and norm(x.func).endswith('.visit') for x in ast.walk(n.elt))
+        if isinstance(n, ast.Call) and norm(n.func) == 'map' and len(n.args) == 2:
+            return norm(n.args[0]).endswith('.visit') and 'body' in norm(n.args[1])
+        return False
+    body_loops = sorted([n for n in walk_no_nested(f2) if visits_body(n)], key=lambda n: n.lineno)
+    okf = len(adds) == 1 and len(rems) == 1 and body_loops and \
+        all(adds[0].lineno < b_.lineno and getattr(b_, 'end_lineno', b_.lineno) < rems[0].lineno for b_ in body_loops)
     if okf:
         r.ok(c2.mod, fq(c2, f2), "loop_var_env.add(name) ; visit body ; loop_var_env.remove(name)")
     else:
